@@ -43,6 +43,9 @@ Readings (the weaker one where the statement leaves a choice):
   * an initial condition on a name that has no equation is tolerated by the library (ignored); the spec
     says it stores no series.  If it did, the clause that fails is the one the statement has: the table
     after a successful solve no longer has horizon+1 rows (a mere extra column with horizon 0 is DRIFT).
+  * solver options set before the solve (TraceStep, ParameterSolveInitialSteadyState) are part of the
+    history; they never change what the table must be: the model's variables plus k and t, stated
+    horizon + 1 rows.
   * GetSeriesList() is the mechanism, not the table: a wrong list alone is reported as DRIFT; the
     property is judged on the text of the tables.
 Names containing a tab or a newline are outside the explored space (no name of a model can).
@@ -185,7 +188,7 @@ def render_event(cls, src, holder, produce):
 # (a) replay of a TLC behaviour
 # --------------------------------------------------------------------------------------
 
-def solver_text(names, holder, block_h, conds, rng):
+def solver_text(names, holder, block_h, conds, rng, steady=False):
     """A well-posed block over the stored names (never a pure alias, no simultaneous loop), with the
     initial conditions of the history: conds = [(name, spaced)], on variables or on names without equation."""
     lines = []
@@ -196,6 +199,8 @@ def solver_text(names, holder, block_h, conds, rng):
         form = rng.randint(0, 2)
         c0 = round(rng.uniform(-50.0, 50.0), 3)
         c1 = round(rng.uniform(-5.0, 5.0), 3)
+        if steady and form == 1 and n != 't':
+            form = 0            # an initial steady state exists only when nothing but t moves with k
         if form == 0 or (form == 2 and prev is None):
             rhs = '%r*k + %r' % (c1, c0) if n == 't' else repr(c0)
         elif form == 1:
@@ -249,10 +254,19 @@ def execute(beh, seed):
     table_of = holder
     stated = {}
     conds = []
+    opts = {}
     for o in hist:
         op = o['op']
         name = name_of(o['name'])
-        if op == 'cond':
+        if op == 'trace':
+            h_eff = stated.get('solver', stated.get('block', 0))
+            step = rng.randint(1, h_eff) if o['place'] == 'inside' else h_eff + rng.randint(1, 3)
+            opts['trace'] = step
+            ev = {'ev': 'Trace', 'place': o['place'], 'step': step}
+        elif op == 'steady':
+            opts['steady'] = True
+            ev = {'ev': 'Steady'}
+        elif op == 'cond':
             conds.append((name, bool(o.get('sp', False))))
             ev = {'ev': 'Condition', 'name': o['name'], 'sp': bool(o.get('sp', False))}
         elif op == 'horizon':
@@ -299,11 +313,16 @@ def execute(beh, seed):
             ev = {'ev': 'Solve', 'used': -1, 'vs': [], 'must': True}
             solver = None
             try:
-                text = solver_text(list(holder.keys()), holder, stated.get('block'), conds, rng)
+                text = solver_text(list(holder.keys()), holder, stated.get('block'), conds, rng,
+                                   steady=opts.get('steady', False))
                 solver = EquationSolver()
                 if 'solver' in stated:
                     solver.MaxTime = stated['solver']      # stated on the solver object, before the text is parsed
                 solver.ParseString(text)
+                if 'trace' in opts:
+                    solver.TraceStep = opts['trace']
+                if opts.get('steady'):
+                    solver.ParameterSolveInitialSteadyState = True
                 solver.SolveEquation()
                 ev.update(ok=True, used=int(solver.Parser.MaxTime))
             except Exception:
@@ -331,6 +350,7 @@ BLOCKS = {
     'loop': "x = y + 1.\ny = 0.5*x\nx(0) = 3.",
     'lagged': "x = 0.5*LAG_x + 1e-3*k\nLAG_x = x(k-1)\nBig = 1e300*x\ntiny = 1e-300*x\nneg = -x\nx(0) = 2.",
     'plain': "x = 2.\ny = x + k",
+    'steadyable': "x = 0.5*LAG_x + g\nLAG_x = x(k-1)\ny = 2.*x + 1e-300\nx(0) = 1.\nexogenous\ng = [2.]*20",
     'diverges': "x = x + 1.",                        # ConvergenceError: a failed solve
 }
 BOOK = ('SIM', 'SIMEX1', 'PC')
@@ -348,7 +368,11 @@ def model_specs(tier, rng):
              {'block_text': 'diverges', 'block': 4},
              {'block_text': 'lagged', 'block': 6, 'conds': [['z', False]]},            # left behind, no equation
              {'block_text': 'loop', 'block': 3, 'conds': [['y', True], ['w', False]]},   # "y (0) = ..." and dangling
-             {'block_text': 'mixed', 'solver': 2, 'conds': [['A', False], ['k', False], ['a_b', True]]}]
+             {'block_text': 'mixed', 'solver': 2, 'conds': [['A', False], ['k', False], ['a_b', True]]},
+             {'model': 'SIM', 'block': 8, 'trace': 3}, {'model': 'SIMEX1', 'block': 5, 'trace': 9, 'steady': True},
+             {'model': 'PC', 'block': 4, 'steady': True},
+             {'block_text': 'lagged', 'block': 4, 'trace': 4}, {'block_text': 'loop', 'block': 6, 'trace': 1, 'steady': True},
+             {'block_text': 'steadyable', 'block': 3, 'steady': True}, {'block_text': 'loop', 'solver': 3, 'trace': 7}]
     if tier != 'quick':
         specs += [{'model': 'SIM', 'block': 100}, {'model': 'SIM', 'block': 1}, {'model': 'SIM', 'block': 0},
                   {'model': 'SIMEX1', 'block': 40}, {'model': 'PC', 'block': 3}, {'model': 'PC', 'block': 60},
@@ -362,6 +386,10 @@ def model_specs(tier, rng):
                         spec['block'] = b
                     if sv is not None:
                         spec['solver'] = sv
+                    if rng.random() < 0.5:
+                        spec['trace'] = rng.randint(0, 8)
+                    if name in ('loop',) and rng.random() < 0.5:
+                        spec['steady'] = True
                     extra = rng.choice([None, [['zz', False]], [['x', True]], [['q', True], ['x', False]]])
                     if extra is not None:
                         spec['conds'] = extra
@@ -400,6 +428,18 @@ def execute_model(spec, wd):
         events.append({'ev': 'Horizon', 'place': 'model' if is_model else 'block', 'h': spec['block']})
     if 'solver' in spec:
         events.append({'ev': 'Horizon', 'place': 'solver', 'h': spec['solver']})
+    h_eff = spec.get('solver', spec.get('block', 0))
+    if 'trace' in spec:
+        events.append({'ev': 'Trace', 'place': 'inside' if 1 <= spec['trace'] <= h_eff else 'outside',
+                       'step': spec['trace']})
+    if spec.get('steady'):
+        events.append({'ev': 'Steady'})
+
+    def options(solver):
+        if 'trace' in spec:
+            solver.TraceStep = spec['trace']
+        if spec.get('steady'):
+            solver.ParameterSolveInitialSteadyState = True
     try:
         if is_model:
             import sfc_models.gl_book.chapter3 as ch3
@@ -410,6 +450,7 @@ def execute_model(spec, wd):
             solver = model.EquationSolver
             if 'solver' in spec:
                 model.EquationSolver.MaxTime = spec['solver']
+            options(model.EquationSolver)
             path = os.path.join(wd, 'timeseries_%s.txt' % core.digest(spec))
             Logger.cleanup()
             Logger.register_log(path, log='timeseries')
@@ -431,6 +472,7 @@ def execute_model(spec, wd):
             if 'solver' in spec:
                 solver.MaxTime = spec['solver']
             solver.ParseString(text)
+            options(solver)
             solver.SolveEquation()
     except Exception:
         ok = False
@@ -485,7 +527,12 @@ def signature(clause, events):
     stated = {}
     cond_keys = set()
     variables = set()
+    options = set()
     for ev in events:
+        if ev['ev'] == 'Trace':
+            options.add('TraceStep-' + ev['place'])
+        if ev['ev'] == 'Steady':
+            options.add('InitialSteadyState')
         if ev['ev'] == 'Condition':
             cond_keys.add(name_of(ev['name']) + (' ' if ev['sp'] else ''))
         if ev['ev'] == 'Put':
@@ -523,6 +570,8 @@ def signature(clause, events):
                 if any(ln > ev['rows'] for ln in ev['lens']) and \
                         any(n in cond_keys and n not in variables for n in short):
                     return 'rows-cut-by-the-series-of-an-initial-condition-without-equation'
+                if any(ln > ev['rows'] for ln in ev['lens']) and options:
+                    return 'rows-cut-by-a-short-series-after-solve-with-options:' + '+'.join(sorted(options))
                 where = '+'.join(sorted(stated)) or 'nowhere'
                 return 'rows-differ-from-horizon+1-after-solve:horizon-stated-in-' + where + \
                     (':zero' if solved == 0 else '')
